@@ -329,6 +329,7 @@ PROPS['C09'] = Prop(
     quick=[_ft('faults_cl', 0, 'CallbackList with 1..3 callbacks: append / invoke / copy-construct / copy-assign / move-assign+swap', optional_covers=(3,)),
            _ft('faults_queue', 1, 'EventQueue with 0..3 pending events and a recycled slot: enqueue / process / processOne / processIf / peekEvent / takeEvent', optional_covers=(5,)),
            _ft('faults_disp', 2, 'EventDispatcher: append/prepend/insertListener (existing and new event), via ScopedRemover / CounterRemover / ConditionalRemover, dispatch, copy', optional_covers=(3, 5)),
+           _ft('faults_hqueue', 1, 'HeterEventQueue (type-erased slots) with 0..3 pending events and a recycled slot: enqueue / process / processOne / processIf', defs={'HETERQ': None}, optional_covers=(5,)),
            _ft('faults_disp_fkey', 2, 'EventDispatcher with a user Event type whose copies and comparisons can throw (std::map): the same operations', defs={'FKEY': None}, optional_covers=(0, 1, 2, 3, 5)),
            _ft('faults_hcl', 3, 'HeterCallbackList: append / invoke / copy-construct / copy-assign / move-assign+swap', optional_covers=(3,))],
     thorough=[_ft('faults_cl_f2', 0, 'CallbackList', 2, optional_covers=(3,), budget_s=1700), _ft('faults_queue_f2', 1, 'EventQueue', 2, optional_covers=(5,), budget_s=1700),
@@ -347,6 +348,7 @@ PROPS['C08'] = Prop(
            Run('c8_copymove_cl_k3', 'copymove.cpp', {'KK': 3, 'OBJ': 0, 'TRACKED': None}, covers=11, optional_covers=(8, 9, 10), bounds=_C8 + 'C10 histories of CallbackList copies/moves/swaps, K=3: the live callback instances are exactly the listeners of the live objects after every step'),
            Run('c8_copymove_queue_k2', 'copymove.cpp', {'KK': 2, 'OBJ': 2, 'TRACKED': None}, covers=11, optional_covers=(7, 8, 9, 10), bounds=_C8 + 'C10 histories of EventQueue copies/moves/swaps, K=2'),
            _ft('c8_faults_queue', 1, 'EventQueue (exceptions): a throwing listener/predicate/copy/allocation never leaks or double-destroys a payload', optional_covers=(5,)),
+           _ft('c8_faults_hqueue', 1, 'HeterEventQueue (exceptions): the same for its type-erased slots', defs={'HETERQ': None}, optional_covers=(5,)),
            _ft('c8_faults_cl', 0, 'CallbackList (exceptions): failed copies and additions release every callback copy', optional_covers=(3,)),
            Run('c8_cl_threads_s1_p2', 'cl_threads.cpp', {'TT': 2, 'SS': 1}, preempt=2, covers=4, optional_covers=(2,), mt=True, bounds=_C8 + 'C03 two-thread schedules (S=1, P=2): no node or callback is leaked (shared_ptr cycle) under any interleaving')],
     thorough=[Run('c8_cl_history_k4', 'cl_history.cpp', {'KK': 4, 'TRACKED': None}, covers=8, budget_s=1700, bounds=_C8 + 'C01 histories, K=4'),
